@@ -87,7 +87,7 @@ def run(ctx, config='rel-all'):
     # path that can still return Err) and the copy discipline are the obligations of C12, evaluated here as C01.R9
     from .. import runner
     from . import c12
-    c12.run(runner.Sub(ctx, 'R9', 'C12', only={'O2', 'R1', 'R3', 'R4'}), config)     # not the zero fill (R6) / trait defaults (R5): they do not move or size blocks
+    c12.run(runner.Sub(ctx, 'R9', 'C12', only={'O2', 'R1', 'R3', 'R4', 'R8'}), config)     # not the zero fill (R6) / trait defaults (R5): they do not move or size blocks
     # ---- R10 the crate's own clients of the arena keep the allocation contract
     from . import clients
     clients.check(ctx, config, 'R10')
